@@ -334,6 +334,9 @@ func EQZ(t *Term) *Term {
 			return r
 		}
 	}
+	if r := eqzSmallSym(t); r != nil {
+		return r
+	}
 	// normalise: divide by the gcd, make the first coefficient positive
 	ms := t.sortedMons()
 	g := new(big.Int)
@@ -451,6 +454,19 @@ func BIT(t *Term, k int) *Term {
 	}
 	if a := t.SingleAtom(); a != nil && a.Kind == IByte && k < 8 {
 		return BIT(a.T, 8*a.Idx+k)
+	}
+	if a := t.SingleAtom(); a != nil && a.Kind == IWOp && a.Op == "shl" {
+		if s, ok := a.Args[1].IsConst(); ok && k < a.Idx {
+			if k < int(s.Int64()) {
+				return TInt(0)
+			}
+			return BIT(a.Args[0], k-int(s.Int64()))
+		}
+	}
+	if a := t.SingleAtom(); a != nil && a.Kind == IWOp && a.Op == "shr" {
+		if s, ok := a.Args[1].IsConst(); ok && int(s.Int64())+k < a.Idx {
+			return BIT(a.Args[0], int(s.Int64())+k)
+		}
 	}
 	if w, ok := t.window(k, 1); ok {
 		if _, isC := w.IsConst(); isC || w.IsPred() {
@@ -698,6 +714,7 @@ func LiftLimbs(w []*Term) *Term {
 // idempotence is structural; here complete groups of limb equalities are
 // merged into one whole-value equality.
 func (t *Term) norm() *Term {
+	t = t.dropLtEq()
 	need := false
 	for _, m := range t.mons {
 		n := 0
@@ -871,4 +888,174 @@ func completeChain(args []*Term) *Chain {
 		return nil
 	}
 	return top
+}
+
+
+// dropLtEq removes monomials that contain both [A < B] and [A = B] (mutually exclusive).
+func (t *Term) dropLtEq() *Term {
+	has := false
+	for _, m := range t.mons {
+		if len(m.preds) >= 2 {
+			for _, p := range m.preds {
+				if p.Kind == PLT {
+					has = true
+				}
+			}
+		}
+	}
+	if !has {
+		return t
+	}
+	out := newTerm()
+	for _, m := range t.mons {
+		drop := false
+		for _, p := range m.preds {
+			if p.Kind != PLT {
+				continue
+			}
+			eq := EQ(p.A, p.B).SinglePred()
+			if eq == nil {
+				continue
+			}
+			for _, q := range m.preds {
+				if q == eq {
+					drop = true
+				}
+			}
+		}
+		if !drop {
+			out.addMon(m.c, m.preds, m.atom)
+		}
+	}
+	return out
+}
+
+
+// TrichoNorm rewrites every top-level [A < B] whose operands are in non-canonical order as 1 - [B < A] - [A = B]
+// (exactly one of the three holds), so that two spellings of one comparison have one normal form.
+func TrichoNorm(t *Term) *Term {
+	out := TInt(0)
+	for _, m := range t.mons {
+		q := TConst(m.c)
+		for _, p := range m.preds {
+			f := TPred(p)
+			if p.Kind == PLT && p.A.Key() > p.B.Key() {
+				_, c1 := p.A.IsConst()
+				_, c2 := p.B.IsConst()
+				if !c1 && !c2 {
+					f = TInt(1).Sub(LT(p.B, p.A)).Sub(EQ(p.A, p.B))
+				}
+			}
+			q = q.Mul(f)
+		}
+		if m.atom != nil {
+			q = q.Mul(TAtom(m.atom))
+		}
+		out = out.Add(q)
+	}
+	return out.norm()
+}
+
+
+// eqzSmallSym decides [t = 0] for a term built with word operations over ONE symbol of small range (a byte) by
+// evaluating t at every value of the symbol: the result is the disjunction of the (mutually exclusive) [sym = v].
+func eqzSmallSym(t *Term) *Term {
+	var sym *IAtom
+	hasOp := false
+	ok := true
+	var scanT func(t *Term)
+	scanA := func(a *IAtom) {
+		switch a.Kind {
+		case ISym:
+			if sym != nil && sym != a {
+				ok = false
+			}
+			sym = a
+		case IWOp:
+			hasOp = true
+			switch a.Op {
+			case "and", "or", "xor", "shr", "shl", "trunc":
+				for _, x := range a.Args {
+					scanT(x)
+				}
+			default:
+				ok = false
+			}
+		default:
+			ok = false
+		}
+	}
+	scanT = func(t *Term) {
+		for _, m := range t.mons {
+			if len(m.preds) > 0 {
+				ok = false
+			}
+			if m.atom != nil && ok {
+				scanA(m.atom)
+			}
+		}
+	}
+	scanT(t)
+	if !ok || !hasOp || sym == nil || !sym.Hi.IsInt64() || !sym.Lo.IsInt64() || sym.Hi.Int64()-sym.Lo.Int64() > 255 {
+		return nil
+	}
+	var eval func(t *Term, v *big.Int) *big.Int
+	eval = func(t *Term, v *big.Int) *big.Int {
+		sum := new(big.Int)
+		for _, m := range t.mons {
+			x := new(big.Int).Set(m.c)
+			if a := m.atom; a != nil {
+				var y *big.Int
+				if a.Kind == ISym {
+					y = v
+				} else {
+					var args []*big.Int
+					for _, g := range a.Args {
+						args = append(args, eval(g, v))
+					}
+					mask := new(big.Int).Sub(pow2(a.Idx), bigOne)
+					switch a.Op {
+					case "and":
+						y = new(big.Int).Set(mask)
+						for _, g := range args {
+							y.And(y, new(big.Int).And(g, mask))
+						}
+					case "or":
+						y = new(big.Int)
+						for _, g := range args {
+							y.Or(y, new(big.Int).And(g, mask))
+						}
+					case "xor":
+						y = new(big.Int)
+						for _, g := range args {
+							y.Xor(y, new(big.Int).And(g, mask))
+						}
+					case "shr":
+						y = new(big.Int).Rsh(new(big.Int).And(args[0], mask), uint(args[1].Int64()))
+					case "shl":
+						y = new(big.Int).And(new(big.Int).Lsh(args[0], uint(args[1].Int64())), mask)
+					case "trunc":
+						y = new(big.Int).And(args[0], mask)
+					}
+				}
+				x.Mul(x, y)
+			}
+			sum.Add(sum, x)
+		}
+		return sum
+	}
+	var zeros []int64
+	for v := sym.Lo.Int64(); v <= sym.Hi.Int64(); v++ {
+		if eval(t, big.NewInt(v)).Sign() == 0 {
+			zeros = append(zeros, v)
+		}
+	}
+	if len(zeros) > 4 {
+		return nil
+	}
+	out := TInt(0)
+	for _, v := range zeros {
+		out = out.Add(EQ(TAtom(sym), TInt(v)))
+	}
+	return out
 }
